@@ -897,10 +897,18 @@ class AccessorEval:
             raise _Break()
         if isinstance(st, ast.Continue):
             raise _Continue()
+        if isinstance(st, ast.Global):
+            local["<global names>"] = set(local.get("<global names>", ())) | set(st.names)
+            return
         raise NotSymbolic(f"statement kind {type(st).__name__}")
 
     def _assign(self, t, val, local):
         if isinstance(t, ast.Name):
+            if t.id in local.get("<global names>", ()):
+                # `global X` in this function: the module's state for the rest of this evaluation
+                mod = getattr(self, "module", None) or self.cls.module
+                self.__dict__.setdefault("_globals", {})[(mod.name, t.id)] = val
+                return
             local[t.id] = val
             return
         if isinstance(t, (ast.Tuple, ast.List)):
